@@ -91,6 +91,36 @@ def reaction_lists(tier):
     return out
 
 
+def big_reaction_lists(tier):
+    """networks beyond the small pool: 7 species, 6-12 reactions of mixed order, every species on both sides somewhere,
+    more reactions than species and fewer; rotations of one list change which reaction sits at which index"""
+    ID = lambda s: ('id', s)
+    S = BIGPOOL
+    base = [
+        dict(reactants=[S[0]], products=[S[1]], kind='massaction', k='kf'),
+        dict(reactants=[S[1], S[2]], products=[S[3]], kind='massaction', k=0.5),
+        dict(reactants=[S[3]], products=[S[1], S[2]], kind='massaction', k=0.7),
+        dict(reactants=[S[4], S[4]], products=[S[5]], kind='massaction', k=0.01),
+        dict(reactants=[S[5]], products=[S[4], S[4], S[6]], kind='massaction', k='kf'),
+        dict(reactants=[], products=[S[6]], kind='hillnegative', k=1.2, K=2.0, n=1.0, s1=S[5]),
+        dict(reactants=[S[6]], products=[], kind='massaction', k=0.9),
+        dict(reactants=[S[2]], products=[S[2], S[0]], kind='proportionalhillpositive', k='kf', K='KK', n='nn', s1=S[6], d=S[2]),
+        dict(reactants=[S[0], S[3], S[6]], products=[S[5], S[5]], kind='massaction', k=0.002),
+        dict(reactants=[S[1], S[1], S[1]], products=[S[0]], kind='massaction', k=0.001),
+        dict(reactants=[S[6]], products=[S[3]], kind='general', rate=('*', ID('kg'), ('*', ID(S[6]), ID(S[4])))),
+        dict(reactants=[S[5]], products=[], kind='massaction', k=1.1, delay=dict(type='fixed', delay='tau', reactants=[S[2]], products=[S[6], S[6], S[0]])),
+        dict(reactants=[S[0], S[1], S[2], S[3]], products=[S[4], S[5], S[6]], kind='massaction', k=1e-4),
+    ]
+    out = []
+    n = len(base)
+    for size in ((6, 9, 13) if tier == 'quick' else range(5, 14)):
+        for rot in range(0, n, 1 if tier == 'thorough' else 3):
+            lst = [base[(rot + i) % n] for i in range(size)]
+            out.append(lst)
+            out.append(lst[::-1])
+    return out
+
+
 def declarations():
     """how the species get declared: every permutation explicitly, implicitly by the reactions, only via initial conditions"""
     d = [('explicit', list(p)) for p in itertools.permutations(POOL)]
@@ -103,7 +133,11 @@ def declarations():
     return d
 
 
-def build(rxs, decl):
+BIGPOOL = ['S0', 'S1', 'S2', 'S3', 'S4', 'S5', 'S6']
+BIGSTATES = [dict(zip(BIGPOOL, v)) for v in ([2.0, 3.0, 5.0, 1.0, 4.0, 0.5, 6.0], [1.0, 0.0, 2.5, 3.0, 0.0, 7.0, 1.5], [60.0, 55.0, 120.0, 75.0, 90.0, 51.0, 200.0])]
+
+
+def build(rxs, decl, POOL=POOL, STATES=STATES):
     from bioscrape.types import Model
     how, order = decl
     if how in ('shared-dict-constructor', 'shared-dict-create'):
@@ -149,13 +183,14 @@ def build(rxs, decl):
 
 def check_model(c, item):
     from bioscrape.simulator import ModelCSimInterface
-    rxs, decl = item
-    spec = dict(species=POOL, reactions=rxs, params=PARAMS, x0=STATES[0])
+    rxs, decl = item[0], item[1]
+    big = len(item) > 2 and item[2] == 'big'
+    POOL_, STATES_ = (BIGPOOL, BIGSTATES) if big else (POOL, STATES)
     c.count('states')
-    key = 'C03/%s/' % decl[0]
-    case = dict(reactions=rxs, declaration=decl)
+    key = 'C03/%s%s/' % ('big-' if big else '', decl[0])
+    case = dict(reactions=rxs, declaration=decl, big=big)
     try:
-        m = build(rxs, decl)
+        m = build(rxs, decl, POOL_, STATES_)
     except Exception as e:
         if decl[0] in ('explicit', 'incremental', 'shared-dict-constructor', 'shared-dict-create'):
             c.violation(key + 'build-exception', 'a valid reaction list with every species declared was rejected: %r' % e, case)
@@ -184,7 +219,7 @@ def check_model(c, item):
     if not np.array_equal(Sd, np.array(Sd_ref, dtype=float).reshape(len(sl), len(rxs))):
         c.violation(key + 'delayed-stoichiometry', 'delay update array %s for species %s, delayed products minus reactants gives %s' % (Sd.tolist(), sl, Sd_ref), case)
         return
-    missing = [s for s in POOL if s not in sl]
+    missing = [s for s in POOL_ if s not in sl]
     if any(s in used for s in missing if decl[0] != 'implicit'):
         c.violation(key + 'species-missing', 'species %s used by the reactions are not in the model: %s' % (missing, sl), case)
         return
@@ -192,7 +227,7 @@ def check_model(c, item):
     iface.py_prep_deterministic_simulation()
     iface.py_prep_deterministic_simulation()     # preparing again must not change anything
     nontrivial = False
-    for x in STATES:
+    for x in STATES_:
         xv = np.array([x.get(s, 0.0) for s in sl])
         if any(s not in sl for s in used):
             break
@@ -259,6 +294,11 @@ def run(ctx):
     for rxs in lists:
         for d in decls:
             items.append((rxs, d))
+    bigs = big_reaction_lists(ctx.tier)
+    for rxs in bigs:
+        for d in ([('explicit', list(BIGPOOL)), ('explicit', list(reversed(BIGPOOL))), ('explicit', BIGPOOL[3:] + BIGPOOL[:3]), ('ic-only', None),
+                   ('incremental', None), ('shared-dict-constructor', None), ('shared-dict-create', None)]):
+            items.append((rxs, d, 'big'))
     pmap(check_model, items, ctx, nshards=256)
     miss = []
     for pv in propensity_variants():
@@ -274,12 +314,12 @@ def run(ctx):
             for nm in sorted(set(names)):
                 miss.append((rx, nm))
     pmap(check_missing, miss, ctx, nshards=32)
-    ctx.bounds = dict(single_reaction_models=len(singles), reaction_lists=len(lists), declarations=len(decls), models=len(items),
+    ctx.bounds = dict(single_reaction_models=len(singles), reaction_lists=len(lists), big_reaction_lists=len(bigs), declarations=len(decls), models=len(items),
                       missing_parameter_cases=len(miss))
     ctx.rule = ('E2: single reactions with every reactant x product sequence of length 0..4 over {A,B,C} (quick: 0..3, thinned beyond total '
                 'length 3), every propensity type x delay type x delayed reactant/product lists; ordered pairs (thorough: triples) from a '
                 '12-reaction menu; each under all declaration styles (6 explicit permutations, implicit by the reactions, via the initial '
-                'condition dictionary in two orders, incrementally: first reaction, initialise, then each further reaction followed by an initialisation; and with one parameter dictionary object shared by all mass-action reactions of equal k, through the constructor and through create_reaction). Oracle: update arrays equal products minus reactants counted with multiplicity '
+                'condition dictionary in two orders, incrementally: first reaction, initialise, then each further reaction followed by an initialisation; and with one parameter dictionary object shared by all mass-action reactions of equal k, through the constructor and through create_reaction). In addition rotations / reversals of a 13-reaction list over 7 species (5..13 reactions, orders 0..4, counts up to 200) under seven declaration styles. Oracle: update arrays equal products minus reactants counted with multiplicity '
                 '(exact), derivative equals (S+Sd).rate with closed-form rates at 5 states x 2 times (1e-12). Missing value: for every '
                 'parameter position a reaction can mention, the model without that value must fail to initialise, build an interface or '
                 'simulate. states = models; non-trivial = derivative non-zero somewhere; distinct by (reaction list, declaration).')
@@ -290,4 +330,4 @@ def replay(ctx, case):
     if 'missing' in case:
         check_missing(ctx, (case['reaction'], case['missing']))
     else:
-        check_model(ctx, (case['reactions'], tuple(case['declaration'])))
+        check_model(ctx, (case['reactions'], tuple(case['declaration'])) + (('big',) if case.get('big') else ()))
